@@ -48,11 +48,20 @@ class Lock:
         self.f.close()
 
 
-def run(cmd, cwd=None, env=None, timeout=1800, check=False, stdin=None):
+def default_signals():
+    """preexec_fn: give the child the default disposition for SIGINT/SIGTERM/SIGQUIT.  A check started
+    from a background job of a non-interactive shell inherits SIGINT and SIGQUIT as ignored, and an
+    ignored signal stays ignored across exec (a Go program then ignores it until it calls signal.Notify)."""
+    import signal
+    for sg in (signal.SIGINT, signal.SIGTERM, signal.SIGQUIT):
+        signal.signal(sg, signal.SIG_DFL)
+
+
+def run(cmd, cwd=None, env=None, timeout=1800, check=False, stdin=None, preexec_fn=None):
     t0 = time.time()
     try:
         p = subprocess.run(cmd, cwd=cwd, env=env, timeout=timeout, stdout=subprocess.PIPE, stderr=subprocess.STDOUT,
-                           input=stdin, text=True, errors="replace")
+                           input=stdin, text=True, errors="replace", preexec_fn=preexec_fn)
         out, rc = p.stdout, p.returncode
     except subprocess.TimeoutExpired as e:
         out = (e.stdout or b"")
@@ -97,6 +106,21 @@ def coq_make(targets, timeout=1500):
             run(["coq_makefile", "-f", "_CoqProject", "-o", "Makefile"], cwd=COQ, check=True)
         rc, out, dt = run(["timeout", str(timeout), "make", "-j16"] + targets, cwd=COQ, timeout=timeout + 30)
     return rc == 0, out, dt
+
+
+def coqchk(module, timeout=2400):
+    """Re-check the compiled module and everything it depends on with the independent checker;
+    returns dict(ok, axioms, seconds, summary)."""
+    with Lock("coq"):
+        rc, out, dt = run(["timeout", str(timeout), "coqchk", "-silent", "-o", "-Q", "theories", "IP", "IP." + module], cwd=COQ, timeout=timeout + 30)
+    summ = out[out.find("CONTEXT SUMMARY"):] if "CONTEXT SUMMARY" in out else out[-1500:]
+    axioms = None
+    m = re.search(r"\* Axioms:(.*?)\n\s*\n\* Constants/Inductives relying on type-in-type", summ, re.S)
+    if m:
+        txt = m.group(1).strip()
+        axioms = [] if txt == "<none>" else [l.strip() for l in txt.splitlines() if l.strip()]
+    clean = rc == 0 and all(("relying on %s: <none>" % k) in re.sub(r"\s+", " ", summ) for k in ("type-in-type", "unsafe (co)fixpoints")) and "positivity is assumed: <none>" in re.sub(r"\s+", " ", summ)
+    return {"ok": bool(clean), "rc": rc, "axioms": axioms, "seconds": round(dt, 1), "summary": re.sub(r"\n\s*\n", "\n", summ)[:1500]}
 
 
 def theorems_of(props_file):
